@@ -22,7 +22,7 @@ import (
 	"github.com/dadrus/heimdall/verifharness/vkit"
 )
 
-func TestMain(m *testing.M) { vkit.RegisterProbes(); vkit.Main(m) }
+func TestMain(m *testing.M) { vkit.RegisterProbes(); vkit.FillWithEncodedSlashes(); vkit.Main(m) }
 
 // ---- generated rule sets ---------------------------------------------------------------------
 
@@ -217,6 +217,9 @@ func buildWorldVia(c genCase, order []string, viaUpdate, emptiedFirst bool) (*vk
 				ID:      r.ID,
 				Matcher: rulecfg.Matcher{BacktrackingEnabled: r.Backtrack, Methods: append([]string(nil), r.Methods...)},
 				Execute: []config.MechanismConfig{{"authenticator": "anon"}},
+				// (paths may hold an encoded slash inside of a segment; what a rule does with it is C08's subject: here every rule lets
+				// it pass, so that the selection can be observed)
+				EncodedSlashesHandling: rulecfg.EncodedSlashesOnNoDecode,
 			}
 			rc.Matcher.Scheme = r.Scheme
 			if r.Host != "" {
